@@ -219,11 +219,11 @@ def worker_compute(args):
         out["callees"] = sorted(set(out["callees"]) | {v for n in out["assumed_callees"] for v in cs.contracts[n].verified_by})
         out["stats"] = dict(ex.stats)
         if c.kind != "lemma" and not c.noreturn and not out.get("return_sat") and not out["undecided"] and not ex.unsupported:
-            out["error"] = (f"no satisfiable normal-return path in {target}: every clause about the normal result is vacuous "
+            out["vacuity"] = (f"no satisfiable normal-return path in {target}: every clause about the normal result is vacuous "
                             "(contradictory pre-condition or callee contract?); a contract for inputs that never return is marked noreturn=True")
         dead = sorted(k for k, (n, ok) in ex.stats.get("callret", {}).items() if n > 0 and ok == 0)
         if dead and not out["undecided"]:
-            out["error"] = ("vacuous call sites: the normal return of " + ", ".join(dead) + f" is infeasible at every call site in {target} "
+            out["vacuity"] = (out.get("vacuity", "") + "; " if out.get("vacuity") else "") + ("vacuous call sites: the normal return of " + ", ".join(dead) + f" is infeasible at every call site in {target} "
                             "(the callee's contract contradicts the caller's state; every path through the call was cut)")
     except Exception as e:      # noqa
         out["error"] = f"{type(e).__name__}: {e}\n{traceback.format_exc()[-1500:]}"
@@ -420,6 +420,13 @@ def main(argv=None):
             continue
         if r.get("partial"):
             lines.append(f"NOTE {r['target']}: {r['partial']}")
+        if r.get("vacuity"):
+            # a contract that is vacuous on the unchanged tree is an engine error; a change that makes the normal path of a function
+            # disappear is reported through the obligations it refutes (and only as an engine error when it refutes none)
+            if any(ob["status"] == "refuted" for ob in r["obligations"]):
+                lines.append(f"NOTE {r['target']}: {r['vacuity']}")
+            else:
+                engine_err.append(f"{r['target']}: {r['vacuity']}")
         funcs.append({"target": r["target"], "paths": r["paths"], "outcomes": r["outcomes"], "obligations": len(r["obligations"]),
                       "secs": r["secs"], "covers_sat": r["covers_sat"], "from_cache": bool(r.get("cached"))})
         asm |= set(r["assumptions"])
